@@ -7,7 +7,7 @@
 From Coq Require Import List ZArith String.
 From AGH Require Import Model.Migrate Proofs.Migrate Proofs.MigrateFrame Proofs.MigrateSim
   Proofs.MigrateTable Gen.MigrateTable Proofs.MigrateFrameDns Proofs.MigrateElems
-  Model.MigrateLoad Proofs.MigrateLoadable Proofs.MigrateLoadableC.
+  Model.MigrateLoad Proofs.MigrateLoadable Proofs.MigrateLoadableC Proofs.MigrateBack.
 Import ListNotations.
 Local Open Scope string_scope.
 Local Open Scope Z_scope.
@@ -107,10 +107,10 @@ Print Assumptions C13_path_independent.
     failed in one run and succeeded when split at version 10); [fieldVal] now
     converts a whole float where an int is expected, the model follows
     ([coerce]) and the former witness upgrades to the same file on both paths.
-    Proved: every case in which the one run does not fail.  Not yet proved:
-    "the one run fails => the split run fails" (needs the simulation in the
-    other direction); the statement stays visible and the harness checks it
-    on every split run. *)
+    [C13_path_independent_unconditional_partial] covers every case in which
+    the one run does not fail (for any tree); the full statement is
+    [C13_path_independent_unconditional] below, proved through the converse
+    simulation of Proofs/MigrateBack.v. *)
 Definition C13_path_independent_unconditional_statement : Prop :=
   path_independent_unconditional_statement.
 
@@ -119,6 +119,51 @@ Theorem C13_path_independent_unconditional_partial : forall O top t k,
   same_result (migrate O top t) (split_run O top k t).
 Proof. exact path_independent_unconditional_partial. Qed.
 Print Assumptions C13_path_independent_unconditional_partial.
+
+(** The full theorem.  For every decoded document, every oracle, every target
+    and every split point: the one run and the split run end alike: both
+    fail, or both produce the same file.  The failing direction rests on an
+    invariant of in-memory trees ([tinv], Proofs/MigrateBack.v): steps leave
+    Go-typed values only at dns.querylog_interval, querylog.interval,
+    statistics.interval, dns.upstream_mode and filtering.safe_fs_patterns, and
+    no step reads one of these with a [string] or [[]any] assertion; under it
+    a step fails on the tree exactly when it fails on the re-read file. *)
+Theorem C13_path_independent_unconditional : forall O top t k,
+  plain_doc top = true -> version_of (input_map top) < k < t ->
+  same_result (migrate O top t) (split_run O top k t).
+Proof. exact path_independent_unconditional. Qed.
+Print Assumptions C13_path_independent_unconditional.
+
+Theorem C13_path_independent_unconditional_is_statement : C13_path_independent_unconditional_statement.
+Proof. exact path_independent_unconditional_holds. Qed.
+Print Assumptions C13_path_independent_unconditional_is_statement.
+
+(** Its two ingredients, for any range of steps: typed values stay where the
+    steps leave them, and a range of steps that fails on such a tree fails on
+    the file written from it (with [C13_steps_respect_reread]: fails exactly
+    when). *)
+Theorem C13_steps_keep_typed_positions : forall O cur tgt m r,
+  tinv m -> upgrade O cur tgt m = Ok r -> tinv r.
+Proof. exact upgrade_keeps_tinv. Qed.
+Print Assumptions C13_steps_keep_typed_positions.
+
+Theorem C13_steps_fail_alike_on_reread : forall O cur tgt m c,
+  tinv m -> upgrade O cur tgt (norm_obj m) = Ok c -> exists a, upgrade O cur tgt m = Ok a /\ norm_obj a = norm_obj c.
+Proof. exact upgrade_succeeds_alike. Qed.
+Print Assumptions C13_steps_fail_alike_on_reread.
+
+(** Non-vacuity of the failing case: a decoded document that fails at step 23
+    in one run and when split at version 15, where the in-memory tree holds a
+    typed duration (so is not plain) and satisfies the invariant. *)
+Example C13_failing_run_satisfiable :
+  plain_doc (Some failing_doc) = true /\
+  migrate oracles0 (Some failing_doc) 29 = OErr /\
+  split_run oracles0 (Some failing_doc) 15 29 = OErr /\
+  exists b, migrate oracles0 (Some failing_doc) 15 = ONew b /\ tinvb b = true /\ plain (VObj b) = false /\
+            get "querylog" b = Some (VObj [("ignored", VArr []); ("enabled", VBool true); ("file_enabled", VBool true);
+                                           ("interval", VDur 86400000000000); ("size_memory", VInt 1000)]).
+Proof. exact failing_doc_fails_alike. Qed.
+Print Assumptions C13_failing_run_satisfiable.
 
 Example C13_whole_float_path_independent :
   exists a c, migrate oracles0 (Some float_doc) 29 = ONew a /\
@@ -140,6 +185,10 @@ Theorem C13_typed_input_path_dependent :
   migrate oracles0 (Some typed_doc) 29 = OErr /\ exists c, split_run oracles0 (Some typed_doc) 7 29 = ONew c.
 Proof. exact typed_input_path_dependent. Qed.
 Print Assumptions C13_typed_input_path_dependent.
+
+Example C13_typed_input_violates_invariant : tinvb typed_doc = false.
+Proof. exact typed_doc_not_tinv. Qed.
+Print Assumptions C13_typed_input_violates_invariant.
 
 (** The same at the level of the step table, for any in-memory tree (typed
     values anywhere) and any range of steps: running the steps on the tree or
